@@ -156,7 +156,11 @@ def make_case(unit):
                 if osubs and g.chance(0.85):
                     order["insertion_id"] = g.pick(osubs)["id"]
                 else:
-                    order["insertion_id"] = 999
+                    # no such insertion: 999, or a number that happens to be the id of an
+                    # opposing *category* (ids live in different namespaces)
+                    sub_ids = set(s_["id"] for s_ in osubs)
+                    cands = [x for x in oids if isinstance(x, int) and x not in sub_ids]
+                    order["insertion_id"] = g.pick(cands) if cands and g.chance(0.6) else 999
         elif kind == "marginal":
             order["marginal"] = KWM[(j // 15) % len(KWM)] if g.chance(0.95) else "bogus"
     if forced:
